@@ -1044,6 +1044,9 @@ func (c *ctx) optionContract(b *ast.Builder, o *ast.Option, group []ast.Option) 
 			}
 			return
 		}
+		if unchanged(o, group) {
+			return // lenient: the action may decline; the option still assigns the same target
+		}
 		if g := single(); g != nil && len(o.Assignments) > 0 {
 			elem := o.Args[0].Type.Array.ValueType
 			if len(g.Args) != 1 || !typeEq(g.Args[0].Type, elem) {
@@ -1073,6 +1076,9 @@ func (c *ctx) optionContract(b *ast.Builder, o *ast.Option, group []ast.Option) 
 				c.fail("o.map_to_index: option without a single map argument not left unchanged", id)
 			}
 			return
+		}
+		if unchanged(o, group) {
+			return // lenient: the action may decline; the option still assigns the same target
 		}
 		if g := single(); g != nil && len(o.Assignments) > 0 {
 			m := o.Args[0].Type.Map
